@@ -17,6 +17,7 @@ import SpsdkVerif.Proofs.Ahab
 import SpsdkVerif.Proofs.AhabVerify
 import SpsdkVerif.Proofs.AhabRom
 import SpsdkVerif.Proofs.AhabParse
+import SpsdkVerif.Proofs.AhabRom2
 
 namespace SpsdkVerif.C06
 open SpsdkVerif SpsdkVerif.Misc SpsdkVerif.Ahab SpsdkVerif.AhabVerify
@@ -291,6 +292,55 @@ theorem rom_accepts (c : CryptoOps) (hc : CryptoLaws c) (img : Image) (bin : Byt
       .ok ⟨p.offset, p.ready.size, p.entry.flags, Iae.isEncrypted img.ver p.entry.flags⟩ :=
   rom_accepts_entry' c hc img bin maxC maxI hexp hA us hus u hu i p hp hblob hsz hnoext
 
+/-- `rom_accepts`, signature-block part (version 1, signed): the independent `checkSigBlock` accepts the signature block of an
+    exported container - tag, version, length = container length - offset, 16 <= SRK table < signature, alignment, signature
+    container inside the block, certificate and blob behind it, SRK table header and four equal records, selected record not
+    revoked - and reports: signed range `[base, base + sigblock offset + signature offset)`, the SRK table, the selected
+    record, the signature bytes and the SHA-256 of the table -/
+theorem rom_accepts_sigblock (c : CryptoOps) (maxC maxI : Nat) (bin cb : Bytes) (base : Nat) (cont : Container) (iaes : List Iae)
+    (t : SrkTable) (hcb : Spec.AhabRom.slice bin base cb.length = cb) (hexp : exportContainerWith .v1 cont iaes = .ok cb)
+    (hb : BlobLenOK cont.sb) (ht : SrkTableWF t) (hte : encodeSrkTable t = .ok cont.sb.srk) (hsig : cont.sb.signature ≠ [])
+    (hset : cont.srkSet ≠ 0) (hrev : (cont.revokeMask >>> cont.usedSrkId) % 2 = 0) :
+    ∃ P, cont.sb.srk.length = 4 + (12 + P) * 4 ∧
+    Spec.AhabRom.checkSigBlock c (Spec.AhabRom.paramsV1 maxC maxI) bin base cb.length (sigBlockOffset .v1 iaes.length) cont.flags =
+      .ok ((sbLayout .v1 cont.sb).srkOff, (sbLayout .v1 cont.sb).sigOff, (sbLayout .v1 cont.sb).certOff, (sbLayout .v1 cont.sb).blobOff,
+           (sbLayout .v1 cont.sb).length,
+           some ⟨sigBlockOffset .v1 iaes.length + (sbLayout .v1 cont.sb).sigOff,
+                 base + sigBlockOffset .v1 iaes.length + (sbLayout .v1 cont.sb).srkOff, cont.sb.srk.length,
+                 base + sigBlockOffset .v1 iaes.length + (sbLayout .v1 cont.sb).srkOff + 4 + cont.usedSrkId * (12 + P), 12 + P,
+                 cont.usedSrkId,
+                 base + sigBlockOffset .v1 iaes.length + (sbLayout .v1 cont.sb).sigOff + 8, cont.sb.signature.length,
+                 c.hash .sha256 cont.sb.srk⟩) :=
+  checkSigBlock_accepts_v1 c maxC maxI bin cb base cont iaes t hcb hexp hb ht hte hsig hset hrev
+
+/-- `rom_accepts`, container level (version 1, signed with an SRK table), for every `c` with `CryptoLaws c`: `checkContainer` of
+    the independent checker accepts container `k` of an exported image - header read at `k * 0x400`, every image-array entry
+    (placement, hash, decryption), the signature block - and its report names the signed range, so together with the
+    signature obligation (discharged on the real file by the harness) the container is authenticated.  The entry hypotheses
+    exclude the open finding C06-encrypted-size-alignment and the refused configuration "encrypted flag without blob". -/
+theorem rom_accepts_container (c : CryptoOps) (hc : CryptoLaws c) (img : Image) (hv : img.ver = .v1) (bin : Bytes) (maxC maxI : Nat)
+    (hexp : img.export c = .ok bin) (hA : 0 < img.chip.imageAlignment)
+    (us : List UContainer) (hus : img.update c = .ok us) (k : Nat) (u : UContainer) (hk : us[k]? = some u)
+    (hblob : BlobLenOK u.cont.sb) (t : SrkTable) (ht : SrkTableWF t) (hte : encodeSrkTable t = .ok u.cont.sb.srk)
+    (hsig : u.cont.sb.signature ≠ []) (hset : u.cont.srkSet ≠ 0) (hrev : (u.cont.revokeMask >>> u.cont.usedSrkId) % 2 = 0)
+    (hn : u.placed.length ≤ maxI)
+    (hent : ∀ (i : Nat) (p : Placed), u.placed[i]? = some p → 0 < p.ready.size ∧
+      ¬ (Iae.isEncrypted img.ver p.entry.flags = true ∧ u.cont.sb.blob.isSome = false) ∧
+      (Iae.isEncrypted img.ver p.entry.flags = true → u.cont.sb.blob.isSome = true →
+        p.ready.size = p.ready.image.length ∧ (storedImage img.chip p.entry.data).length % 16 = 0 ∧ u.cont.dek.isSome = true)) :
+    ∃ cb P, u.export .v1 = .ok cb ∧ u.cont.sb.srk.length = 4 + (12 + P) * 4 ∧
+    Spec.AhabRom.checkContainer c (Spec.AhabRom.paramsV1 maxC maxI) bin k (if u.cont.sb.blob.isSome then u.cont.dek else none) =
+      .ok ⟨k, k * 0x400, cb.length, u.cont.flags, u.cont.swVersion, u.cont.fuseVersion, sigBlockOffset .v1 u.placed.length,
+           (sbLayout .v1 u.cont.sb).srkOff, (sbLayout .v1 u.cont.sb).sigOff, (sbLayout .v1 u.cont.sb).certOff,
+           (sbLayout .v1 u.cont.sb).blobOff, (sbLayout .v1 u.cont.sb).length, u.placed.map (repOf .v1),
+           some ⟨sigBlockOffset .v1 u.placed.length + (sbLayout .v1 u.cont.sb).sigOff,
+                 k * 0x400 + sigBlockOffset .v1 u.placed.length + (sbLayout .v1 u.cont.sb).srkOff, u.cont.sb.srk.length,
+                 k * 0x400 + sigBlockOffset .v1 u.placed.length + (sbLayout .v1 u.cont.sb).srkOff + 4 + u.cont.usedSrkId * (12 + P), 12 + P,
+                 u.cont.usedSrkId,
+                 k * 0x400 + sigBlockOffset .v1 u.placed.length + (sbLayout .v1 u.cont.sb).sigOff + 8, u.cont.sb.signature.length,
+                 c.hash .sha256 u.cont.sb.srk⟩⟩ :=
+  checkContainer_accepts_v1 c hc img hv bin maxC maxI hexp hA us hus k u hk hblob t ht hte hsig hset hrev hn hent
+
 /-! ## 7. the verifier's range records -/
 
 /-- a bit-range record (`add_record_bit_range`) is an ERROR exactly for values outside `[0, 2^bits - 1]`.
@@ -422,6 +472,12 @@ theorem image_roundtrip (c : CryptoOps) (hc : CryptoLaws c) (img : Image) (bin :
     (hphantom : ∀ m, us.length ≤ m → m < maxC → decodeHeader img.ver (bin.drop (m * img.ver.containerSize)) = none) :
     parseFile img.ver maxC bin = some (us.map (expectedP img.ver)) :=
   image_roundtrip' c hc img bin maxC hexp hA us hus hne hwf hmax hphantom
+
+/-- the version-2 SRK table array of the model (header, table of four records holding the hashes of their SRK data blocks, SRK
+    data of the used record) is delimited by its own header length: the `RawBlockOK` hypothesis of `image_roundtrip` holds -/
+theorem srk_array_self_delimited (c : CryptoOps) (used : Nat) (srks : List SrkV2) (b : Bytes)
+    (h : encodeSrkArray c used srks = .ok b) : RawBlockOK AhabConsts.srkTableArrayTag b :=
+  srkArray_raw_ok c used srks b h
 
 /-! ## 9. tampering is detected unless a primitive is broken (reductions, DESIGN §4) -/
 
